@@ -17,6 +17,10 @@ import (
 	"strings"
 	"testing"
 
+	bindingcontext "github.com/flant/shell-operator/pkg/hook/binding_context"
+	"github.com/flant/shell-operator/pkg/hook/task_metadata"
+	htypes "github.com/flant/shell-operator/pkg/hook/types"
+	"github.com/flant/shell-operator/pkg/task"
 	"github.com/flant/shell-operator/pkg/utils/string_helper"
 	"github.com/flant/shell-operator/pkg/zzverif/vres"
 )
@@ -52,6 +56,8 @@ func c14config(bs []c14binding, hook string) string {
 	if s == "configVersion: v1\n" {
 		s += "onStartup: 1\n"
 	}
+	// every hook also has ordinary work: a schedule binding whose task may be waiting in `main`
+	s += "schedule:\n- name: sb\n  crontab: \"* * * * *\"\n"
 	return s
 }
 
@@ -64,6 +70,7 @@ type c14outcome struct {
 	message  string
 	warnings []string
 	patch    string
+	kpatch   string // what the hook writes to $KUBERNETES_PATCH_PATH
 }
 
 func c14outcomes() []c14outcome {
@@ -80,6 +87,10 @@ func c14outcomes() []c14outcome {
 			c14outcome{id: "deny+msg", exit: exit, response: `{"allowed": false, "message": "not today"}`, valid: exit == 0, message: "not today"},
 			c14outcome{id: "deny", exit: exit, response: `{"allowed": false}`, valid: exit == 0},
 			c14outcome{id: "deny+msg+warn", exit: exit, response: `{"allowed": false, "message": "no", "warnings": ["w3"]}`, valid: exit == 0, message: "no", warnings: []string{"w3"}},
+			// the hook says "allowed" but the rest of its run fails (object patch that cannot be parsed /
+			// cannot be applied): a failed run is a denial
+			c14outcome{id: "allow+bad-object-patch", exit: exit, response: `{"allowed": true}`, kpatch: `{"operation":"NoSuchOperation"}`},
+			c14outcome{id: "allow+unappliable-object-patch", exit: exit, response: `{"allowed": true}`, kpatch: `{"operation":"MergePatch","kind":"ConfigMap","namespace":"default","name":"absent","mergePatch":{"data":{"a":"b"}}}`},
 			c14outcome{id: "allow+patch+warn", exit: exit, response: `{"allowed": true, "warnings": ["w4"], "patch": "` + b64 + `"}`, valid: exit == 0, allowed: true, warnings: []string{"w4"}, patch: patch},
 			c14outcome{id: "allow+patch", exit: exit, response: `{"allowed": true, "patch": "` + b64 + `"}`, valid: exit == 0, allowed: true, patch: patch},
 		)
@@ -96,7 +107,7 @@ func c14run(set c14set, path, bodyKind string, oc c14outcome) (sig, what, outcom
 		}
 	}()
 	fx.Script = func(run *fxRun) fxOutcome {
-		return fxOutcome{Exit: oc.exit, Admission: oc.response}
+		return fxOutcome{Exit: oc.exit, Admission: oc.response, Patch: oc.kpatch}
 	}
 	if err := fx.assemble(); err != nil {
 		return "C14 config-rejected", err.Error(), ""
@@ -104,6 +115,34 @@ func c14run(set c14set, path, bodyKind string, oc c14outcome) (sig, what, outcom
 	if err := fx.withWebhooks(); err != nil {
 		return "C14 webhook-init", err.Error(), ""
 	}
+	// ordinary work waiting in `main` (not started here): one schedule task per hook. A webhook
+	// request is served on its own and leaves the queues alone.
+	fx.withCluster()
+	fx.op.TaskQueues.WithMainName("main")
+	fx.op.TaskQueues.NewNamedQueue("main", fx.op.taskHandler)
+	mainQ := fx.op.TaskQueues.GetMain()
+	var waiting []string
+	for _, hn := range []string{"a.sh", "b.sh"} {
+		bc := bindingcontext.BindingContext{Binding: "sb"}
+		bc.Metadata.BindingType = htypes.Schedule
+		tk := task.NewTask(task_metadata.HookRun).WithMetadata(task_metadata.HookMetadata{HookName: hn, Binding: "sb", BindingType: htypes.Schedule, BindingContext: []bindingcontext.BindingContext{bc}}).WithQueueName("main")
+		mainQ.AddLast(tk)
+		waiting = append(waiting, tk.GetId())
+	}
+	defer func() {
+		if sig != "" {
+			return
+		}
+		var left []string
+		mainQ.Iterate(func(t task.Task) {
+			if t != nil {
+				left = append(left, t.GetId())
+			}
+		})
+		if strings.Join(left, ",") != strings.Join(waiting, ",") {
+			sig, what = "C14 queue-disturbed-by-request", fmt.Sprintf("tasks waiting in main before the request %v, after it %v", waiting, left)
+		}
+	}()
 	var body string
 	switch bodyKind {
 	case "valid":
